@@ -462,6 +462,7 @@ class _Alias:
         self.methods = {}                # name -> FunctionDef: methods reachable through self / cls / super()
         self.functions = {}              # name -> FunctionDef: private module-level helpers
         self.inlined = []
+        self.external = set()            # external (pydicom / numpy / builtin) callees that receive a tracked reference
         self.unmodelled = set()          # internal callees that receive a tracked reference and are not inlined
         self.scope_cls = None            # class whose method body is being inlined (for self / super() inside it)
         self._next_cls = None
@@ -651,6 +652,8 @@ class _Alias:
                     return pre, FRESH
                 if node.func.attr in VIEW_METHODS:
                     return pre, ('view', ITEM if node.func.attr in ITEM_METHODS else SAME, recv)
+            if any(not _is_fresh(e) for e in vals):
+                self.external.add(fname.split('(')[0][-40:])       # not a highdicom function: assumed not to write its arguments
             last = fname.split('.')[-1]
             if last in KEEPING_FUNCS:
                 return pre, self.pack(pre, vals + [('view', ITEM, e) for e in vals if not _is_fresh(e)])   # list(x), sorted(x) …
@@ -1210,7 +1213,7 @@ def _package():
     funcs, methods, classes = {}, {}, {}
     for dp, _, fs in sorted(os.walk(root)):
         for f in sorted(fs):
-            if not f.endswith('.py') or f.startswith('_') and f not in ('__init__.py',):
+            if not f.endswith('.py') or f in ('_modules.py', '_iods.py', '_icc_profiles.py'):
                 continue
             try:
                 tree = ast.parse(open(os.path.join(dp, f)).read())
@@ -1337,7 +1340,9 @@ def make_alias_target(tag):
             conds = '; '.join(f'{i}: {c}' for i, c in enumerate(a.cond_texts) if i or a.has_copy)
             aux, term = _render_entry(qual, len(a.params), len(a.cond_texts), a.has_copy, prog, _ident(tag, qual, len(entries)))
             auxdefs.append(aux)
-            entries.append(f'  -- {qual}({", ".join(a.params)})   conditions: {conds}\n  ' + term)
+            info = (f'inlined {len(a.inlined)} internal calls: {", ".join(sorted(set(a.inlined)))[:600]}; external callees given a '
+                    f'reference (assumed read-only): {", ".join(sorted(a.external))[:600]}')
+            entries.append(f'  -- {qual}({", ".join(a.params)})   conditions: {conds}\n  -- {info}\n  ' + term)
         if not entries and not skipped:
             raise Unsupported(f'no converter found for {tag}')
         text = (''.join(auxdefs) + f'/-- alias-flow programs extracted from the converters of `{tag}` -/\n'
@@ -1465,7 +1470,9 @@ def make_ctor_target(tag):
             conds = '; '.join(f'{i}: {c}' for i, c in enumerate(a.cond_texts) if i)
             aux, term = _render_entry(qual, len(a.params), len(a.cond_texts), False, prog, _ident('c_' + tag, qual, len(entries)))
             auxdefs.append(aux)
-            entries.append(f'  -- {qual}({", ".join(a.params)})   conditions: {conds[:1500]}\n  ' + term)
+            info = (f'inlined {len(a.inlined)} internal calls: {", ".join(sorted(set(a.inlined)))[:600]}; external callees given a '
+                    f'reference (assumed read-only): {", ".join(sorted(a.external))[:600]}')
+            entries.append(f'  -- {qual}({", ".join(a.params)})   conditions: {conds[:1500]}\n  -- {info}\n  ' + term)
         if not entries and not skipped:
             raise Unsupported(f'no constructor found for {tag}')
         text = (''.join(auxdefs) + f'/-- alias-flow programs extracted from the constructors (`__init__`) of `{tag}`; `self` is a new object -/\n'
